@@ -1,14 +1,16 @@
 // C28: no accepted configuration or request input can crash Refinery.
 //
 // Engine E2 (enumx), bounded-exhaustive, two families:
-//   (a) configurations — a grammar of rules files and main configuration files (every sampler type, every rule
-//       construct, every field of the configuration metadata, each at the boundary values of its type) is loaded
-//       with the real loader/validator; every ACCEPTED configuration is then driven (samplers built by the real
-//       SamplerFactory decide a fixed set of traces; a fixed workload goes through every endpoint of a pipeline
-//       node running on the loaded configuration; main-file deviations also start a real InMemCollector).
-//   (b) requests — for every HTTP endpoint × content type × content encoding: every prefix and every
-//       single-offset substitution (alphabet 00 ff 7f c1 80 '{') of a set of well-formed seed messages, the header
-//       product, and OTLP/gRPC exports with absent/empty nested messages, on both listeners.
+//
+//	(a) configurations — a grammar of rules files and main configuration files (every sampler type, every rule
+//	    construct, every field of the configuration metadata, each at the boundary values of its type) is loaded
+//	    with the real loader/validator; every ACCEPTED configuration is then driven (samplers built by the real
+//	    SamplerFactory decide a fixed set of traces; a fixed workload goes through every endpoint of a pipeline
+//	    node running on the loaded configuration; main-file deviations also start a real InMemCollector).
+//	(b) requests — for every HTTP endpoint × content type × content encoding: every prefix and every
+//	    single-offset substitution (alphabet 00 ff 7f c1 80 '{') of a set of well-formed seed messages, the header
+//	    product, and OTLP/gRPC exports with absent/empty nested messages, on both listeners.
+//
 // Oracle: nothing panics (recovered by the harness, by route.panicCatcher, or fatal to the process), the process
 // does not exit, every handler returns. Every case runs in a worker subprocess (see proc.go).
 package main
